@@ -537,9 +537,16 @@ impl Case {
             let decodable = !exit_nonzero(&refs[i]);
             let target_in = if self.mode.is_stdin() { STDIN } else { f.path.as_str() };
             let target_out = if self.mode.is_stdin() { STDOUT } else { f.path.as_str() };
-            let read_failed = r.read_failed.iter().any(|(p, _)| p == target_in)
-                || (f.exists && !f.readable)
-                || !f.exists;
+            // "cannot be read" is a fact about the scenario (the file is missing / unreadable /
+            // in files mode not writable, or a fatal fault was injected into its open or reads),
+            // not about what the product chose to do: a product that fails to open a file it
+            // could have opened is not excused
+            let read_failed = !f.exists
+                || !f.readable
+                || (self.mode == Mode::Files && !f.writable)
+                || r.fired.iter().any(|x| {
+                    x.target == target_in && !x.kind.is_benign() && matches!(x.op, OpKind::Open | OpKind::Read)
+                });
             let write_failed = r
                 .fired
                 .iter()
@@ -806,7 +813,9 @@ impl Case {
             return Verdict::Judged(out);
         }
         let target_in = if self.mode.is_stdin() { STDIN } else { f.path.as_str() };
-        let read_failed = r.read_failed.iter().any(|(p, _)| p == target_in);
+        let read_failed = r.fired.iter().any(|x| {
+            x.target == target_in && !x.kind.is_benign() && matches!(x.op, OpKind::Open | OpKind::Read)
+        });
         let write_failed = r
             .fired
             .iter()
@@ -978,7 +987,14 @@ impl Case {
             if !self.files[i].exists && missing_template.is_none() {
                 missing_template = Some((i, r.clone()));
             }
-            if r.exit == Exit::Timeout || abnormal(&r) || r.exit == Exit::Budget {
+            // A panic inside pasfmt-core on this content alone is the pure formatter's business
+            // (C04) and makes the content unusable here. A panic anywhere else (the I/O layer,
+            // main) is simply how this file fails when it is alone: exit status non-zero.
+            let io_layer_panic = matches!(r.exit, Exit::Panic(_)) && !r.real_stderr.contains("/core/src/");
+            if io_layer_panic {
+                stats.probe("c18_file_whose_alone_run_panics_outside_the_core");
+            }
+            if (r.exit == Exit::Timeout || abnormal(&r) || r.exit == Exit::Budget) && !io_layer_panic {
                 if let Exit::Broken(m) = &r.exit {
                     return Verdict::HarnessError(format!("alone run: {m}"));
                 }
